@@ -28,6 +28,7 @@ type poolEntry struct {
 	Path      string `json:"path"`
 	Committed bool   `json:"committed"` // shipped grammar: output must equal the files next to it
 	Heavy     bool   `json:"heavy"`     // expensive to generate (js): drawn rarely
+	Lang      string `json:"lang"`      // target language of the grammar (go, cc, ts)
 }
 
 type fileSum struct {
@@ -133,14 +134,63 @@ func (engine) Run(src *sim.Src, log *sim.Log, res *sim.Result) {
 		res.Skipped = "no grammar compiles on this tree"
 		return
 	}
+	// history shapes: state leaking from one generation into the next shows between
+	// grammars that share code paths, so some histories stay within one back end, repeat
+	// one grammar (A A) or sandwich it (A B A)
+	byLang := map[string][]int{}
+	var langs []string
+	for _, i := range light {
+		l := cfg.Pool[i].Lang
+		if byLang[l] == nil {
+			langs = append(langs, l)
+		}
+		byLang[l] = append(byLang[l], i)
+	}
+	sort.Strings(langs)
+	shape := src.Pick(40, 35, 10, 15)
+	from := light
+	if shape == 1 {
+		from = byLang[langs[src.Draw(len(langs))]]
+		if n < 2 {
+			n = 2
+		}
+	}
+	var planned []int
+	switch shape {
+	case 2: // A A
+		a := light[src.Draw(len(light))]
+		planned = []int{a, a}
+	case 3: // A B A
+		a := light[src.Draw(len(light))]
+		same := byLang[cfg.Pool[a].Lang]
+		planned = []int{a, same[src.Draw(len(same))], a}
+	}
+	if len(heavy) > 0 && src.Chance(1, 40) {
+		// a heavy grammar (js) first, then a shipped one: state js leaves behind
+		var shipped []int
+		for _, i := range light {
+			if cfg.Pool[i].Committed {
+				shipped = append(shipped, i)
+			}
+		}
+		if len(shipped) > 0 {
+			planned = []int{heavy[src.Draw(len(heavy))], shipped[src.Draw(len(shipped))]}
+		}
+	}
+	if planned != nil {
+		n = len(planned)
+	}
 	var steps []stepDesc
 	var hist []string
 	for s := 0; s < n && res.Violation == nil; s++ {
 		var p *poolEntry
-		if len(heavy) > 0 && src.Chance(1, 400) {
+		switch {
+		case planned != nil:
+			p = &cfg.Pool[planned[s]]
+		case len(heavy) > 0 && src.Chance(1, 400):
 			p = &cfg.Pool[heavy[src.Draw(len(heavy))]]
-		} else {
-			p = &cfg.Pool[light[src.Draw(len(light))]]
+		default:
+			p = &cfg.Pool[from[src.Draw(len(from))]]
 		}
 		hist = append(hist, p.ID)
 		ref := cfg.Refs[p.ID]
